@@ -1,6 +1,7 @@
 import BeffVerif.Props.C12
 import BeffVerif.Props.C12Nonempty
 import BeffVerif.Props.C12Paths
+import BeffVerif.Props.C12Received
 open BeffVerif.C12
 #print axioms safeParse_errors_le_10
 #print axioms union_reports_one
@@ -10,3 +11,6 @@ open BeffVerif.C12
 #print axioms empty_intersection_reports_nothing
 #print axioms report_nonempty
 #print axioms report_paths_extend
+#print axioms report_received_located
+#print axioms safeParse_errors_located
+#print axioms at_nil
